@@ -39,6 +39,13 @@ CLAIMED.update({
         "The harness's own nesting counter must never exceed MaxCallbackDispatch+1, an operation started at the bound must be deferred and then complete with the data/connection it would have had inline, IO.Dispatched must be 0 whenever the stack is unwound.",
    note="No Cancel in these workloads. Regular files: open known finding (cannot be deferred through epoll)."),
 })
+CLAIMED["C05"] = dict(
+   technique="deterministic simulation: seeded interleaving search with parked goroutines + race detector on the same schedules",
+   text="1-4 posting goroutines and the loop goroutine run as scheduler-controlled tasks: every kernel call and every Mutex.Lock/Unlock is a yield point and the tape chooses who continues, "
+        "which reaches the append/eventfd-write and drain/run windows. Oracle: every handler exactly once, on the loop task, per-poster FIFO order, Post always returns, the world never goes quiescent "
+        "with a handler un-run (lost wake-up) or a task stuck on the mutex (deadlock, including handlers that post), Pending()/Posted() exact at quiescence. Half of the workers run the same generator "
+        "on a race-detector build in which only sonic is instrumented and the baton between tasks is a raw pipe the detector cannot see: a report is a violation with the tape attached.",
+   note="The scheduler-aware sync.Mutex shim is backed by a real mutex so lock edges stay visible to the detector; the shim's Read/Write reproduce the acquire/release edges of syscall.Read/Write. checkptr is disabled in the race build (sonic's epoll user-data cast).")
 
 NOT_YET = {
 }
